@@ -139,3 +139,38 @@ type verifFlag struct{ v int32 }
 
 func (f *verifFlag) set()      { verifNativeLock(); f.v = 1; verifNativeUnlock() }
 func (f *verifFlag) get() bool { verifNativeLock(); defer verifNativeUnlock(); return f.v == 1 }
+
+func VerifPathLockClose() {
+	dir, derr := os.MkdirTemp("", "verifc18")
+	verifAssert(derr == nil, "temp dir")
+	defer os.RemoveAll(dir)
+	path := filepath.Join(dir, "queue.dat")
+	opts := Options{MaxSize: 64 * verifPageSize, PageSize: verifPageSize}
+	f1, err := Open(path, 0600, opts)
+	verifAssert(err == nil, "first Open succeeds")
+	var tx *Tx
+	if verifBool("readonly") {
+		tx, err = f1.BeginReadonly()
+	} else {
+		tx, err = f1.Begin()
+	}
+	verifAssert(err == nil, "Begin succeeds")
+	var closed verifFlag
+	done := make(chan struct{})
+	go func() {
+		verifAssert(f1.Close() == nil, "Close succeeds")
+		closed.set()
+		close(done)
+	}()
+	verifNativeSleep()
+	verifNativeSleep()
+	verifAssert(!closed.get(), "Close waits for the active transaction")
+	f2, err2 := Open(path, 0600, opts)
+	verifAssert(err2 != nil && f2 == nil, "while Close has not returned, a second Open of the path fails")
+	verifAssert(tx.Close() == nil, "closing the transaction")
+	<-done
+	f3, err3 := Open(path, 0600, opts)
+	verifAssert(err3 == nil && f3 != nil, "after Close the path can be opened again")
+	verifAssert(f3.Close() == nil, "Close succeeds")
+	verifReach("end")
+}
